@@ -120,3 +120,10 @@ package prolog
 //@   bind b = engine.Bool#1
 //@   at-event send next requires[the-answer-s-environment-is-handed-over] true
 //@   ensures[asks-the-consumer-then-continues-or-stops-without-an-error] called(b) && result == b && ghost(chanops) == 2
+
+//@ -- Scan into a map: each variable is converted into a destination allocated for it in its own iteration (a shared
+//@ -- destination would let a later variable overwrite what an earlier one was given)
+//@ func (*Solutions).Scan
+//@   property C12 C15
+//@   trusted
+//@   fresh-per-iteration convertAssign#2 0 reflect.New
